@@ -245,6 +245,11 @@ func TestC11_Exact(t *testing.T) {
 		// extension of the valid signature with non-zero bytes
 		add(append(append([]byte{}, libSig...), g.Bytes("extension", 1, 66)...), "extended")
 
+		// the slice Sign returned was kept uncopied while the key signed other messages
+		if !bytes.Equal(sig, libSig) {
+			g.Fatalf("the signature returned by Sign changed while the key object was used further (%s): %x, was %x", ctx, []byte(sig), libSig)
+		}
+
 		// --- the complete differential ---
 		formatOKRejected, twinAccepted := false, false
 		seen := map[string]bool{}
